@@ -197,3 +197,46 @@ def residual_checks(seed):
     except Exception as e:
         fails.append(('Evaluable', type(e).__name__, repr(e)))
     return fails
+
+
+def cohort_checks(seed):
+    """Plots!RoutingOK for cohorts larger than any colour palette: "one marker trace per individual" for ANY number of
+    individuals (1, 3, 10, 11, 12, 25 -- plotly's qualitative palettes have 10 entries)."""
+    fails = []
+    rng = np.random.default_rng([seed, 11])
+    for n_ids in (1, 3, 10, 11, 12, 25):
+        rows = []
+        for i in range(n_ids):
+            for t in (1.0, 2.0, 3.0)[:1 + i % 3]:
+                rows.append({'ID': i + 1, 'Time': t, 'Observable': 'A', 'Value': round(float(rng.uniform(1, 3)), 3),
+                             'Dose': np.nan, 'Duration': np.nan})
+            rows.append({'ID': i + 1, 'Time': 0.5, 'Observable': np.nan, 'Value': np.nan, 'Dose': 1.0 + i, 'Duration': 0.1})
+        frame = pd.DataFrame(rows)
+        before = frame.copy(deep=True)
+        for cls in ('PDTimeSeriesPlot', 'PDPredictivePlot', 'PKTimeSeriesPlot', 'PKPredictivePlot'):
+            try:
+                with warnings.catch_warnings():
+                    warnings.simplefilter('ignore')
+                    fig = getattr(chi.plots, cls)()
+                    if cls.startswith('PK'):
+                        fig.add_data(frame, observable='A', dose_key='Dose', dose_duration_key='Duration')
+                    else:
+                        fig.add_data(frame, observable='A')
+            except Exception as e:
+                fails.append(('Evaluable', type(e).__name__, dict(cls=cls, n_ids=n_ids, error=repr(e))))
+                continue
+            tr = list(fig._fig.data)
+            biom = [t for t in tr if t.yaxis == 'y2'] if cls.startswith('PK') else tr
+            dose = [t for t in tr if t.yaxis in (None, 'y')] if cls.startswith('PK') else []
+            got = [list(zip(np.asarray(t.x, dtype=float).tolist(), np.asarray(t.y, dtype=float).tolist())) for t in biom]
+            sub = frame[frame['Observable'] == 'A']
+            exp = [list(zip(sub[sub['ID'] == i + 1]['Time'].tolist(), sub[sub['ID'] == i + 1]['Value'].tolist())) for i in range(n_ids)]
+            if got != exp:
+                fails.append(('RoutingOK', 'marker_traces_large_cohort', dict(cls=cls, n_ids=n_ids, n_traces=len(got))))
+            if cls.startswith('PK'):
+                gotd = [list(zip(np.asarray(t.x, dtype=float).tolist(), np.asarray(t.y, dtype=float).tolist())) for t in dose]
+                if gotd != [[(0.5, 1.0 + i)] for i in range(n_ids)]:
+                    fails.append(('RoutingOK', 'dose_traces_large_cohort', dict(cls=cls, n_ids=n_ids, n_traces=len(gotd))))
+        if not frame.equals(before):
+            fails.append(('NoInputWrite', 'data_frame_modified', dict(n_ids=n_ids)))
+    return fails
